@@ -43,5 +43,27 @@ if a not in s:
     s = s.rstrip('\n') + '\n\n---------------------------------------------------------------------------\n\n## 12. Seeded faults: which check catches which change\n\n' + a + '\n' + b + '\n'
 i, j = s.index(a) + len(a), s.index(b)
 s = s[:i] + '\n' + text + s[j:]
+# ---- section 13: per check, what the seeded-fault campaign added to it
+by = {}
+for sid, m in sorted(metas.items(), key=lambda kv: (rnd(kv[0]), kv[0])):
+    st = m.get('strengthening', '')
+    if not m.get('missed_at_first') or not st or st.startswith('('):
+        continue
+    for c in m['caught_by']:
+        by.setdefault(c, [])
+        if st not in [x[1] for x in by[c]]:
+            by[c].append((sid, st))
+sec = ['Generated from `seeded/*/meta.json`: for every check, the workloads / oracles that were added because a seeded fault slipped past the check as it then was (the seed that prompted the addition in brackets). Together with the per-property design of section 5 this is what the checks contain now; the `rule` text in each evidence file says the same from the check\'s own mouth.', '']
+for c in sorted(by):
+    sec.append('**%s**' % c)
+    sec.append('')
+    for sid, st in by[c]:
+        sec.append('* %s [%s]' % (st, sid))
+    sec.append('')
+a2, b2 = '<!-- ADDED-BEGIN -->', '<!-- ADDED-END -->'
+if a2 not in s:
+    s = s.rstrip('\n') + '\n\n---------------------------------------------------------------------------\n\n## 13. What the seeded-fault campaign added to each check\n\n' + a2 + '\n' + b2 + '\n'
+i, j = s.index(a2) + len(a2), s.index(b2)
+s = s[:i] + '\n' + '\n'.join(sec) + '\n' + s[j:]
 open(p, 'w').write(s)
-print('table rows:', len(rows))
+print('table rows:', len(rows), 'checks with additions:', len(by))
